@@ -5,6 +5,7 @@
 -/
 import LibfiberVerif.Driver
 import LibfiberVerif.Model.Ring
+import LibfiberVerif.Model.RingW
 import LibfiberVerif.Model.Hp
 import LibfiberVerif.Model.Mpmc
 import LibfiberVerif.Model.Mpscr
@@ -33,7 +34,7 @@ import LibfiberVerif.Model.IoShim
 namespace LibfiberVerif
 
 def registry : List (String × (List String → IO UInt32)) := [
-  ("Ring", Ring.drive),
+  ("Ring", RingW.drive),  -- Ring + the 64-bit counter machine (init note carries the base)
   ("Hp", Hp.drive),
   ("Mpmc", Mpmc.drive),
   ("Mpsc", Mpsc.drive), ("Spsc", Spsc.drive), ("Mpscr", Mpscr.drive),
